@@ -9,6 +9,7 @@ import (
 	"crypto"
 	"crypto/ecdsa"
 	"crypto/ed25519"
+	"crypto/elliptic"
 	"crypto/rand"
 	"crypto/rsa"
 	"crypto/sha256"
@@ -17,6 +18,7 @@ import (
 	"embed"
 	"encoding/pem"
 	"fmt"
+	"math/big"
 	"sync/atomic"
 	"time"
 
@@ -66,7 +68,26 @@ func LoadKey(name string) *Key {
 	return k
 }
 
+// shortCoordKey derives the P-256 key with the smallest private scalar whose public point has a coordinate
+// with a leading zero octet (code that serialises coordinates by hand, without padding, goes wrong on it).
+func shortCoordKey() *Key {
+	c := elliptic.P256()
+	for d := int64(2); d < 100000; d++ {
+		x, y := c.ScalarBaseMult(big.NewInt(d).Bytes())
+		if len(x.Bytes()) < 32 || len(y.Bytes()) < 32 {
+			priv := &ecdsa.PrivateKey{PublicKey: ecdsa.PublicKey{Curve: c, X: x, Y: y}, D: big.NewInt(d)}
+			spki, err := stdx509.MarshalPKIXPublicKey(&priv.PublicKey)
+			if err != nil {
+				panic(err)
+			}
+			return &Key{Name: "p256-shortcoord", Priv: priv, SPKI: spki, Kind: "p256"}
+		}
+	}
+	panic("no short-coordinate key found")
+}
+
 func init() {
+	keyCache["p256-shortcoord"] = shortCoordKey()
 	// preload so LoadKey is read-only (and goroutine safe) afterwards
 	es, _ := keyFS.ReadDir("keys")
 	for _, e := range es {
